@@ -52,6 +52,7 @@ pub mod datalog {
         //@ ensures facts_budget_strict: r is Ok ==> facts_len(final(self).facts) <= limits.max_facts
         //@ ensures facts_budget: r is Ok ==> facts_len(final(self).facts) <= limits.max_facts || facts_len(final(self).facts) == facts_len(old(self).facts)
         //@ ensures cumulative: final(self).iterations >= old(self).iterations
+        //@ ensures error_accounted: r is Err && r->Err_0 is RunLimit ==> final(self).iterations > old(self).iterations || final(self).iterations == u64::MAX
         //@ ensures errors: r is Err ==> r->Err_0 is Expression || (r->Err_0 is RunLimit && (r->Err_0->RunLimit_0 is TooManyIterations || r->Err_0->RunLimit_0 is TooManyFacts || r->Err_0->RunLimit_0 is Timeout))
         //@ loop 0 invariant frame: self.iterations == old(self).iterations
         //@ loop 0 invariant index_bound: index <= limits.max_iterations + 1
@@ -61,6 +62,7 @@ pub mod datalog {
         //@ loop 0 invariant grown: index == 0 ==> facts_len(self.facts) == facts_len(old(self).facts)
         //@ loop 0 ensures ok_facts_initial: res is Ok && index == 0 ==> facts_len(self.facts) <= limits.max_facts
         //@ loop 0 ensures ok_facts_after_growth: res is Ok && index > 0 ==> facts_len(self.facts) <= limits.max_facts
+        //@ loop 0 ensures err_rounds: res is Err ==> index >= 1
         //@ loop 0 ensures errs: res is Err ==> (res->Err_0 is RunLimit && (res->Err_0->RunLimit_0 is TooManyIterations || res->Err_0->RunLimit_0 is TooManyFacts || res->Err_0->RunLimit_0 is Timeout))
         //@ loop 0 decreases limits.max_iterations + 1 - index
         //@end
